@@ -10,6 +10,7 @@ import (
 	"os"
 	"reflect"
 	"strings"
+	"sync"
 	"sync/atomic"
 	"time"
 
@@ -32,11 +33,25 @@ var c16Tokens = []string{
 
 // the watchdog: a parse that is "current" for longer than this is a hang.
 // Fault-free cost is microseconds; the limit is wall time with > 10^6 slack.
-const c16HangSeconds = 120
+const c16HangSeconds = 30
 
 type c16Watch struct {
 	cur   atomic.Value // string
 	since atomic.Int64
+}
+
+var (
+	c16WatchMu  sync.Mutex
+	c16Watchers []*c16Watch
+)
+
+// newC16Watch makes a watch the hang watchdog looks at
+func newC16Watch() *c16Watch {
+	w := &c16Watch{}
+	c16WatchMu.Lock()
+	c16Watchers = append(c16Watchers, w)
+	c16WatchMu.Unlock()
+	return w
 }
 
 func (w *c16Watch) set(s string) {
@@ -62,15 +77,14 @@ func c16Parse(w *c16Watch, s string) (res interface{}, err error, panicked inter
 
 func runC16(r *ev.Run) {
 	r.Rule = "(i) every string of length <=5 (6 thorough) over a 20-symbol character alphabet taken from the tokenizer's branches; (ii) every token sequence of length <=4 (5 over a reduced alphabet, thorough) over a 63-token alphabet incl. extreme numbers, unterminated and doubled quotes, multi-byte identifiers, and every one-token deletion/replacement/insertion of SQLite-valid CREATE statements; (iii) locality: an alphabet of column definitions, indexed columns and table constraints (all accepted by real SQLite), every ordered pair and triple (quadruple thorough) as one statement: what is reported for element i must equal what is reported for the same text as the only element; determinism: same result twice and after parsing any other statement of the alphabet. oracle: returns (no panic, no hang), deep-equal results. non-trivial = inputs the parser accepts"
-	w := &c16Watch{}
-	watchers := make([]*c16Watch, 64)
-	for i := range watchers {
-		watchers[i] = &c16Watch{}
-	}
+	w := newC16Watch()
 	go func() {
 		for {
 			time.Sleep(2 * time.Second)
-			for _, ww := range append(watchers, w) {
+			c16WatchMu.Lock()
+			all := append([]*c16Watch{}, c16Watchers...)
+			c16WatchMu.Unlock()
+			for _, ww := range all {
 				if s, _ := ww.cur.Load().(string); s != "" && time.Now().UnixNano()-ww.since.Load() > c16HangSeconds*1e9 {
 					r.Violation("C16:hang", fmt.Sprintf("sql.Parse(%q) does not return within %d s", s, c16HangSeconds), map[string]interface{}{"input": s})
 					os.Exit(r.Finish())
@@ -89,9 +103,7 @@ func runC16(r *ev.Run) {
 	var accepted int64
 	// shard by the first two symbols
 	ev.Parallel(n*n, func(sh int) {
-		ww := watchers[sh%len(watchers)]
-		_ = ww
-		lw := &c16Watch{}
+		lw := newC16Watch()
 		first := []int{sh / n, sh % n}
 		var rec func(prefix []int)
 		count := 0
@@ -137,7 +149,7 @@ func runC16(r *ev.Run) {
 	maxTok := 4
 	nt := len(toks)
 	ev.Parallel(nt*nt, func(sh int) {
-		lw := &c16Watch{}
+		lw := newC16Watch()
 		count := 0
 		var rec func(seq []int)
 		rec = func(seq []int) {
@@ -169,7 +181,7 @@ func runC16(r *ev.Run) {
 		red := []string{"CREATE", "TABLE", "INDEX", "UNIQUE", "SELECT", "FROM", "ON", "PRIMARY", "KEY", "NOT", "NULL", "DEFAULT", "COLLATE", "WITHOUT", "ROWID", "DESC", "t", "éa", `"q"`, "'lit'", "(", ")", ",", "*", "-", "1", "0x10", "1.5", "1e", "'un"}
 		nr := len(red)
 		ev.Parallel(nr*nr, func(sh int) {
-			lw := &c16Watch{}
+			lw := newC16Watch()
 			count := 0
 			var rec func(seq []int)
 			rec = func(seq []int) {
@@ -365,7 +377,7 @@ func c16Locality(r *ev.Run, w *c16Watch) {
 	mu <- struct{}{}
 	ev.Parallel(len(tuples), func(ti int) {
 		tu := tuples[ti]
-		lw := &c16Watch{}
+		lw := newC16Watch()
 		var parts, names []string
 		pk := 0
 		for i, e := range tu {
